@@ -22,7 +22,8 @@ Init == l = 1 /\ cnt = [events |-> 0, nontrivial |-> 0, incon |-> 0, okcalls |->
 Next == /\ l <= Len(Trace)
         /\ LET e == Trace[l]
                p == Premise(e) IN
-           /\ (~p => PrintT(<<"INCON", l, "Premise">>))
+           /\ (~p /\ ~BuiltBreaks(e) => PrintT(<<"INCON", l, "Premise">>))
+           /\ (~p /\ BuiltBreaks(e) => PrintT(<<"VIOL", l, Prefix(e) \o ".PlaceholderAdmitsReplacedPart">>))
            /\ (p => \A r \in Failed(e) : PrintT(<<"VIOL", l, r>>))
            /\ cnt' = [cnt EXCEPT !.events = @ + 1,
                                  !.incon = @ + (IF p THEN 0 ELSE 1),
